@@ -9,6 +9,12 @@
 //                                          v_i (bit patterns): text (hex), then readUnformatted of that text:
 //                                          "1 bits..." or "0"
 //   RU type hex                            readUnformatted<type> of an arbitrary text: "1 bits..." or "0"
+//   XT c hex | XA c hex                    Xml round trip through the API with white-space condensing c (1/0): a document whose
+//                                          root element has the text (XT) / an attribute with the value (XA) is written with
+//                                          writeToString and re-read with readFromString: prints the written document (hex),
+//                                          "1 <value read back, hex>" or "0" (exception)
+//   XR c hex                               a hand-written document <?xml ..?><r a="CONTENT">CONTENT</r> is read: prints
+//                                          "1 <attribute value hex> <element text hex>" or "0"
 //   K name                                 replays of the known findings of the text route (see checks/C32.py)
 // types: S double, SF float, I int, B bool, C complex<double>, V3 Vec3, V2V3 Vec<2,Vec3>, M23 Mat<2,3>, M22 Mat22,
 //        R3 Row3, A Array_<double>, AV3 Array_<Vec3>, AC Array_<complex<double>>, VEC Vector_<double>,
@@ -134,6 +140,27 @@ int main() {
             if (!done && ty == "I") { doRU<int>(text); done = true; }
             if (!done && ty == "B") { doRU<bool>(text); done = true; }
             if (!done) printf("?");
+        } else if (cmd == "XT" || cmd == "XA" || cmd == "XR") {
+            int cw; std::string h; ls >> cw >> h; std::string content = unhex(h);
+            Xml::Document::setXmlCondenseWhiteSpace(cw != 0);
+            try {
+                if (cmd == "XR") {
+                    std::string text = "<?xml version=\"1.0\" encoding=\"UTF-8\"?><r a=\"" + content + "\">" + content + "</r>";
+                    Xml::Document d; d.readFromString(String(text));
+                    Xml::Element r = d.getRootElement();
+                    printf("1 %s %s", tohex(r.getRequiredAttributeValue("a")).c_str(), tohex(r.getValue()).c_str());
+                } else {
+                    Xml::Document d; d.setRootTag("r");
+                    Xml::Element r = d.getRootElement();
+                    if (cmd == "XT") r.setValue(String(content)); else r.setAttributeValue("a", String(content));
+                    String out; d.writeToString(out, true);
+                    Xml::Document e; e.readFromString(out);
+                    Xml::Element q = e.getRootElement();
+                    std::string back = cmd == "XT" ? std::string(q.getValue()) : std::string(q.getRequiredAttributeValue("a"));
+                    printf("%s 1 %s", tohex(out).c_str(), tohex(back).c_str());
+                }
+            } catch (const std::exception& ex) { printf("0"); }
+            Xml::Document::setXmlCondenseWhiteSpace(true);
         } else if (cmd == "K") {
             std::string name; ls >> name;
             if (name == "vec_default_digits") {        // String(Vec3) uses the stream default of 6 digits
